@@ -168,7 +168,12 @@ impl Stitch {
                     // Start reading this new index and skip forward until after last_apath
                     match Band::open(&self.archive, *band_id).await {
                         Ok(band) => match band.index().try_iter_available_hunks().await {
-                            Ok(mut index_hunks) => {
+                            Ok(index_hunks) => {
+                                if let Err(err) = band.check_index_hunks().await {
+                                    // Some hunks are missing: say so, and return what's left.
+                                    self.monitor.error(err);
+                                }
+                                let mut index_hunks = index_hunks.with_monitor(self.monitor.clone());
                                 if let Some(last) = &self.last_apath {
                                     index_hunks = index_hunks.advance_to_after(last)
                                 }
